@@ -1260,12 +1260,32 @@ struct Session<'l, T: Subject> {
     step_no: usize,
     applied: Vec<String>,
     leaked_guards: usize,
+    hdr_backend: String,
+    hdr_ceil: u64,
+    /// lineage tracked by the harness itself: does the handle descend from `with_capacity(n > 23)`?
+    taint: Vec<bool>,
+    /// `with_capacity(n)` handles that have only been pushed into so far: `(n, as_ptr at creation)`
+    wcap: Vec<Option<(usize, usize)>>,
+    /// the caller's Vec handed to the last `from_vec` (address), the Vec returned by the last
+    /// successful `into_vec` (address, capacity)
+    last_vec_in: usize,
+    last_vec_out: Option<(usize, usize)>,
     /// `VERIF_TRACE=<path>`: the sequence so far (and the op about to run) is written there
     /// before every step, on one line, so that a crash can be localised
     trace: Option<(String, String)>,
     /// lines not yet sent to the model (header first), and what the implementation/oracle did
     queue: Vec<String>,
     pending: Vec<Pending>,
+}
+
+/// the target of an op before it runs (representation monitors)
+struct PreRepr {
+    tag: char,
+    ptr: usize,
+    len: usize,
+    cap: usize,
+    shares: usize,
+    taint: bool,
 }
 
 /// the implementation's and the oracle's side of one step, compared with the model at `flush`
@@ -1300,6 +1320,12 @@ impl<'l, T: Subject> Session<'l, T> {
             step_no: 0,
             applied: vec![],
             leaked_guards: 0,
+            hdr_backend: hdr.backend.clone(),
+            hdr_ceil: hdr.ceil,
+            taint: vec![false; SLOTS],
+            wcap: vec![None; SLOTS],
+            last_vec_in: 0,
+            last_vec_out: None,
             trace: std::env::var("VERIF_TRACE").ok().filter(|p| !p.is_empty()).map(|p| (p, hdr.lines().join(" ; "))),
             queue,
             pending: vec![],
@@ -1492,6 +1518,7 @@ impl<'l, T: Subject> Session<'l, T> {
                 v.extend_from_slice(bs);
                 alloc::set_mode(alloc::OFF);
                 assert_eq!(v.capacity(), *cap, "Vec::with_capacity is exact for u8");
+                self.last_vec_in = v.as_ptr() as usize;
                 let r = counted(move || T::from_owned(v, var));
                 self.install(*d, r, "unit")
             }
@@ -1638,7 +1665,10 @@ impl<'l, T: Subject> Session<'l, T> {
             Op::IntoVec { h } => {
                 let x = self.pool[*h].take().unwrap();
                 match counted(move || x.into_vec(var)) {
-                    Some(Ok(v)) => format!("bytes:{}", hex(&v)),
+                    Some(Ok(v)) => {
+                        self.last_vec_out = Some((v.as_ptr() as usize, v.capacity()));
+                        format!("bytes:{}", hex(&v))
+                    }
                     Some(Err(x)) => {
                         self.pool[*h] = Some(x);
                         "false".into()
@@ -2129,6 +2159,164 @@ impl<'l, T: Subject> Session<'l, T> {
         (out, mon)
     }
 
+    /// Representation contract (C07) checked on the implementation alone, with the lineage
+    /// (`taint`) tracked here: called right after the op ran.  Returns the violations.
+    fn repr_monitor(&mut self, op: &Op, pre: Option<&PreRepr>, ret: &str, ev: &alloc::Events) -> Vec<String> {
+        let mut bad: Vec<String> = vec![];
+        let (h, d) = op.slots();
+        let ok = ret != "panic" && ret != "false" && !ret.starts_with("err:") && !ret.starts_with("utf8err:");
+        let allocs = ev[0] + ev[2] + ev[4];
+        let any_ev = ev[0] + ev[1] + ev[2] + ev[3] + ev[4];
+        let shown = |e: &alloc::Events| format!("{},{},{},{},{}", e[0], e[1], e[2], e[3], e[4]);
+
+        // ---- lineage: every constructor but `with_capacity(n > 23)` is untainted; derived values inherit
+        if let Some(d) = d {
+            if self.pool[d].is_some() {
+                self.taint[d] = match op {
+                    Op::WithCap { n, .. } => *n > ICAP,
+                    Op::Repeat { n, .. } => pre.map_or(false, |p| (p.len == 0 || *n == 1) && p.taint),
+                    _ => pre.map_or(false, |p| p.taint),
+                };
+                self.wcap[d] = match op {
+                    Op::WithCap { n, .. } => Some((*n, self.pool[d].as_ref().unwrap().hb().as_ptr() as usize)),
+                    _ => None,
+                };
+            }
+        }
+        // a handle stops being "with_capacity then pushes only" as soon as anything else touches it
+        if let Some(h) = h {
+            if !matches!(op, Op::Push { .. } | Op::SPushStr { .. } | Op::SPushChar { .. }) {
+                self.wcap[h] = None;
+            }
+        }
+        for i in 0..SLOTS {
+            if self.pool[i].is_none() {
+                self.taint[i] = false;
+                self.wcap[i] = None;
+            }
+        }
+
+        let res_slot = d.or(h);
+        let res = res_slot.and_then(|i| self.pool[i].as_ref()).map(|x| x.hb());
+
+        // ---- (b) borrowing constructors and borrowed slices of borrowed values
+        let borrowed_src: Option<(usize, usize)> = match (op, pre) {
+            (Op::Borrowed { src, off, len, .. }, _) => Some((self.srcs[*src].as_ptr() as usize + off, *len)),
+            (Op::Clone { .. }, Some(p)) if p.tag == 'B' => Some((p.ptr, p.len)),
+            (Op::Slice { sb, eb, .. } | Op::SSlice { sb, eb, .. }, Some(p)) if p.tag == 'B' && ok => {
+                std_get(p.len, *sb, *eb).map(|(a, b)| (p.ptr + a, b - a))
+            }
+            (Op::SliceRef { rel, plen, .. }, Some(p)) if p.tag == 'B' && ok => Some((p.ptr + rel, *plen)),
+            (Op::Adopt { off, len, .. }, Some(p)) if p.tag == 'B' => Some((p.ptr + off, *len)),
+            _ => None,
+        };
+        if let (Some((ptr, len)), Some(r), true) = (borrowed_src, d.and_then(|i| self.pool[i].as_ref()).map(|x| x.hb()), ok) {
+            if !r.is_borrowed() {
+                bad.push(format!("{}: the result must BORROW the caller's bytes, it is {}", op.name(), if r.is_inline() { "inline (copied)" } else { "allocated (copied)" }));
+            } else if r.as_ptr() as usize != ptr || r.len() != len {
+                bad.push(format!("{}: borrowed result does not point at the source bytes (offset {} len {}, expected len {len})", op.name(), r.as_ptr() as isize - ptr as isize, r.len()));
+            }
+            if any_ev != 0 {
+                bad.push(format!("{}: a borrowing operation must not touch the allocator, events {}", op.name(), shown(ev)));
+            }
+        }
+
+        // ---- (c) sharing: clone, and slice/adopt to more than 23 bytes, of a heap value
+        if let (Some(p), Some(dd), true) = (pre, d, ok) {
+            if p.tag == 'H' {
+                let want: Option<(usize, usize)> = match op {
+                    Op::Clone { .. } => Some((0, p.len)),
+                    Op::Slice { sb, eb, .. } | Op::SSlice { sb, eb, .. } => std_get(p.len, *sb, *eb).map(|(a, b)| (a, b - a)),
+                    Op::SliceRef { rel, plen, .. } => Some((*rel, *plen)),
+                    Op::Adopt { off, len, .. } => Some((*off, *len)),
+                    _ => None,
+                };
+                if let (Some((a, n)), Some(r)) = (want, self.pool[dd].as_ref().map(|x| x.hb())) {
+                    if matches!(op, Op::Clone { .. }) || n > ICAP {
+                        let sharable = self.hdr_backend != "unique" && (p.shares as u64).saturating_sub(1) < self.hdr_ceil;
+                        if sharable {
+                            if any_ev != 0 || r.as_ptr() as usize != p.ptr + a || r.len() != n {
+                                bad.push(format!(
+                                    "{}: a heap value below the share ceiling must be SHARED (no allocator event, same bytes): events {}, pointer offset {} (expected {a})",
+                                    op.name(), shown(ev), r.as_ptr() as isize - p.ptr as isize
+                                ));
+                            }
+                        } else if n > 0 {
+                            let (sb, rb) = (alloc::find(p.ptr), alloc::find(r.as_ptr() as usize));
+                            match (sb, rb) {
+                                (Some(s), Some(rb)) if s.live && rb.live && s.serial != rb.serial => {}
+                                _ => bad.push(format!("{}: the owner cannot be shared (Unique backend / count at its ceiling): the result must live in its OWN block", op.name())),
+                            }
+                        }
+                    }
+                }
+            }
+        }
+
+        // ---- (d) ownership transfer without copying
+        if let (Op::FromVec { d, bs, .. }, true) = (op, ok) {
+            if bs.len() > ICAP {
+                if let Some(r) = self.pool[*d].as_ref().map(|x| x.hb()) {
+                    if r.as_ptr() as usize != self.last_vec_in || ev[2] + ev[3] + ev[4] != 0 {
+                        bad.push(format!("from_vec: a Vec longer than {ICAP} bytes must be adopted as is (same pointer, no buffer event): events {}", shown(ev)));
+                    }
+                }
+            }
+        }
+        if let (Op::IntoVec { .. }, Some(p), true) = (op, pre, ret.starts_with("bytes:")) {
+            if let Some((vp, vc)) = self.last_vec_out.take() {
+                if vp != p.ptr || vc != p.cap || ev[2] + ev[3] + ev[4] != 0 {
+                    bad.push(format!(
+                        "into_vec: Ok must hand the owner Vec over (same pointer: {}, capacity {vc} vs {}, no buffer event: {})",
+                        vp == p.ptr, p.cap, shown(ev)
+                    ));
+                }
+            }
+        }
+
+        // ---- (e) with_capacity(n): pushes up to n bytes in total never move the bytes
+        if let (Some(h), true) = (h, matches!(op, Op::Push { .. } | Op::SPushStr { .. } | Op::SPushChar { .. })) {
+            if let (Some((n, ptr)), Some(r)) = (self.wcap[h], self.pool[h].as_ref().map(|x| x.hb())) {
+                if r.len() > n {
+                    self.wcap[h] = None;
+                } else if n > ICAP && (r.as_ptr() as usize != ptr || !r.is_allocated()) {
+                    bad.push(format!("push: with_capacity({n}) then {} bytes pushed in total moved the bytes", r.len()));
+                } else if n <= ICAP && !r.is_inline() {
+                    bad.push(format!("push: with_capacity({n}) then {} bytes pushed in total left the inline representation", r.len()));
+                }
+            }
+        }
+
+        // ---- (f) an inline result from untainted non-heap inputs costs no allocation
+        if let (Some(r), true) = (res, ok) {
+            let input_ok = pre.map_or(true, |p| p.tag != 'H' && !p.taint);
+            let excluded = matches!(op, Op::Mutate { .. } | Op::ToVec { .. } | Op::IntoVec { .. });
+            if r.is_inline() && input_ok && !excluded && allocs != 0 {
+                bad.push(format!("{}: an inline result from non-heap input must not allocate, events {}", op.name(), shown(ev)));
+            }
+        }
+
+        // ---- (a), (e) every live handle
+        for i in 0..SLOTS {
+            let Some(x) = self.pool[i].as_ref() else { continue };
+            let r = x.hb();
+            if r.capacity() < r.len() {
+                bad.push(format!("h{i}: capacity {} < len {}", r.capacity(), r.len()));
+            }
+            if !self.taint[i] {
+                if !r.is_borrowed() && r.len() <= ICAP && !r.is_inline() {
+                    bad.push(format!(
+                        "h{i}: a value of {} bytes that does not descend from with_capacity must be inline, it is allocated (not normalised) after {}",
+                        r.len(), op.name()
+                    ));
+                } else if !r.is_normalized() {
+                    bad.push(format!("h{i}: is_normalized() is false for a value that does not descend from with_capacity"));
+                }
+            }
+        }
+        bad
+    }
+
     /// One step: applicability, implementation, oracle, model, comparison.
     fn step(&mut self, op: &Op) -> Result<StepRes, String> {
         if !self.applicable(op) {
@@ -2177,9 +2365,23 @@ impl<'l, T: Subject> Session<'l, T> {
         };
 
         // 1. implementation
+        let pre_repr = op.slots().0.map(|h| {
+            let hb = self.pool[h].as_ref().unwrap().hb();
+            PreRepr {
+                tag: if hb.is_inline() { 'I' } else if hb.is_borrowed() { 'B' } else { 'H' },
+                ptr: hb.as_ptr() as usize,
+                len: hb.len(),
+                cap: hb.capacity(),
+                shares: hb.verif_owner_info().map_or(0, |i| i.4),
+                taint: self.taint[h],
+            }
+        });
         let _ = alloc::take_events();
         let ret = self.exec(op);
         let ev = alloc::take_events();
+        for m in self.repr_monitor(op, pre_repr.as_ref(), &ret, &ev) {
+            add("monitor", "repr".into(), "the representation contract (C07)".into(), m);
+        }
         for (k, serial, size) in alloc::take_violations() {
             add("monitor", format!("alloc:{}", alloc::violation_name(k)), "-".into(), format!("{} (block #{serial}, size {})", alloc::violation_name(k), size & 0xffff_ffff_ffff));
         }
